@@ -55,6 +55,7 @@ func init() {
 			ruleStartOnce(c)
 			c.Clause("C08-D2")
 			ruleRunGuardServer(c)
+			ruleReaderExitStops(c, "server")
 			c.Clause("C08-D3")
 			gos := ruleGo(c, serverGo(c), 5, "Start×2, serve, dispatch closure, pushReq")
 			ruleLifetimeWaited(c, gos, chk.PathOfVar(c.M.Server, c.M.SWg).String(), 3, "server")
